@@ -19,7 +19,7 @@ FUNCTIONS = ['rdp.rdp', 'rdp.rdp_fixed', 'rdp._rdp_fixed', 'rdp.grdp', 'rdp._grd
              'evaluation.compute_global_cost (inline layer)']
 STUBS = STUB_DOC
 BOUNDS = dict(quick='L1 (stubbed kernels, all kernel behaviours): n <= 5, Distance x {smape, r2} x Order x every length/min_points in 0..n+1, symbolic thresholds; '
-                    'L0 (real kernels inline): slices through 6 pool curves (n <= 6), one symbolic height + symbolic threshold; L2: chords with integer components <= 64',
+                    'L0 (real kernels inline): slices through 7 pool curves (n <= 6, one with uneven spacing and a collinear plateau), one symbolic height + symbolic threshold; L2: chords with integer components <= 64',
               thorough='L1: n <= 6 (rdp, grdp: 7); L0: 12 pool curves, one and two symbolic heights, all metric/distance/order combinations')
 ASSUMPTIONS = ['exact real arithmetic in L0/L1 (T1); float64 only through the L2 lemma and the replays',
                'L1 stubs are contract-free apart from D >= 0 and score >= 0 (see stubs)', 'y >= 0, x strictly increasing']
@@ -81,6 +81,12 @@ def cases(tier, seed):
             if not q or n <= 3:
                 out.append(dict(layer='L0', nra_at_decide=False, fn='mp_grdp', curve=ci, pos=pos, distance='shortest', metric='smape', order='segment'))
                 out.append(dict(layer='L0', nra_at_decide=False, fn='min_point_rdp', curve=ci, pos=pos))
+    if q:
+        # uneven spacing + an exactly collinear run (zero plateau): the collinear fallback of the fixed-size loop is exercised with non-uniform x
+        for o in ORD:
+            out.append(dict(layer='L0', nra_at_decide=False, fn='rdp_fixed', curve=4, pos=[1], distance='shortest', order=o))
+        out.append(dict(layer='L0', nra_at_decide=False, fn='mp_grdp', curve=4, pos=[1], distance='shortest', metric='smape', order='segment'))
+        out.append(dict(layer='L0', nra_at_decide=False, fn='min_point_rdp', curve=4, pos=[1]))
     return out + l1cases
 
 
